@@ -49,7 +49,7 @@ def gen_names(rng, n):
     return names, fam
 
 
-def gen_ranked_profile(rng, *, allow_ties=False, int_weights=False, min_c=1, max_c=6, max_ballots=10, unit_cap=None):
+def gen_ranked_profile(rng, *, allow_ties=False, int_weights=False, min_c=1, max_c=6, max_ballots=10, unit_cap=None, tie_bias=0.0):
     """-> (jprofile, shape)   ballots are ranked; ties inside positions only if allow_ties"""
     n = wchoice(rng, [(k, w) for k, w in zip(range(1, 8), [1, 3, 5, 6, 5, 3, 1]) if min_c <= k <= max_c])
     names, fam = gen_names(rng, n)
@@ -57,6 +57,10 @@ def gen_ranked_profile(rng, *, allow_ties=False, int_weights=False, min_c=1, max
     if unit_cap and wfam == "big":
         wfam = "mid"
     law = wchoice(rng, [("mixed", 5), ("full", 3), ("bullet", 2), ("sym", 2)])
+    if tie_bias and rng.random() < tie_bias:
+        # tie pressure: equal weights and symmetric / bullet-heavy ballots make tallies collide
+        wfam = "ones"
+        law = wchoice(rng, [("sym", 3), ("bullet", 2), ("mixed", 2)])
     ghosts = []
     if n >= 2 and rng.random() < 0.25:
         ghosts = rng.sample(names, rng.randint(1, min(2, n - 1)))
@@ -152,7 +156,7 @@ def gen_score_profile(rng, L, k, n, *, max_ballots=8, rational=True):
 TIEBREAKS = [None, "random", "borda", "first_place"]
 
 
-def gen_rule_case(rng, rules=ALL_RULES, *, max_c=6, tiebreaks=TIEBREAKS):
+def gen_rule_case(rng, rules=ALL_RULES, *, max_c=6, tiebreaks=TIEBREAKS, tie_bias=0.0):
     """-> case dict {rule, kw, profile, shape}.  Only configurations the rule documents."""
     rule = rng.choice(list(rules))
     cfg = {}
@@ -180,7 +184,7 @@ def gen_rule_case(rng, rules=ALL_RULES, *, max_c=6, tiebreaks=TIEBREAKS):
         transfer = wchoice(rng, [("fractional", 3), ("random", 2)])
         if transfer == "random":
             int_w = True
-    jp, shape = gen_ranked_profile(rng, allow_ties=allow_ties, int_weights=int_w, min_c=min_c, max_c=max_c, unit_cap=(rule == "PluralityVeto" or transfer == "random"))
+    jp, shape = gen_ranked_profile(rng, allow_ties=allow_ties, int_weights=int_w, min_c=min_c, max_c=max_c, unit_cap=(rule == "PluralityVeto" or transfer == "random"), tie_bias=tie_bias)
     n = len(jp["candidates"])
     m = rng.randint(1, n)
     tb = rng.choice(list(tiebreaks))
